@@ -1223,6 +1223,21 @@ static void run_line (const std::string& line_in)
     }
     if (! interchangeable && ((fx.data == before_y.f.data && ! before_y.f.inlined) || (fy.data == before_x.f.data && ! before_x.f.inlined)))
       wmsg ("C09", "swp: buffer transferred although the allocators are unequal and do not propagate");
+    // one on the heap, one inlined, interchangeable allocators: the heap buffer changes hands untouched; only the inlined
+    // side's elements move (into the other object's inline storage): one construction and one destruction each
+    if (interchangeable && before_x.f.inlined != before_y.f.inlined)
+    {
+      const Info& heap_before = before_x.f.inlined ? before_y.f : before_x.f;
+      const Info& inl_before = before_x.f.inlined ? before_x.f : before_y.f;
+      const Info& taker_after = before_x.f.inlined ? fx : fy;
+      if (taker_after.data != heap_before.data) wmsg ("C09", "swp: one side on the heap and stealing permitted, but the heap buffer was not handed over");
+      if (g_allocs_this_op != 0) wmsg ("C09", "swp: allocation although the heap buffer could be handed over");
+#ifndef E_TRIVIAL
+      if (g_elem_events_this_op != 2 * static_cast<long> (inl_before.size)) wmsg ("C09", "swp: element operations on a transferred buffer");
+#else
+      (void) inl_before;
+#endif
+    }
   }
   // C09: steal rule
   if (exc == "-" && (o == "newm" || o == "asm"))
